@@ -314,12 +314,18 @@ fn check_two(ctx: &Ctx, la: usize, lc: usize) -> Result<(&'static str, u64), (St
 
 /// the multiset on an ephemeral coin B (created by A in the same bundle)
 fn check_ephemeral(ctx: &Ctx, ms: &[usize]) -> Result<&'static str, (String, String)> {
+    // both listing orders: the creating spend first, and the created coin's spend first
+    let first = check_ephemeral_order(ctx, ms, false)?;
+    check_ephemeral_order(ctx, ms, true)?;
+    Ok(first)
+}
+
+fn check_ephemeral_order(ctx: &Ctx, ms: &[usize], child_first: bool) -> Result<&'static str, (String, String)> {
     let sems: Vec<Sem> = ms.iter().map(|i| sem(ctx.letters[*i].0, &ctx.letters[*i].1)).collect();
     let a_id = coin_id(&P1, &PH1, 5);
-    let out = output(&[
-        spend(&P1, &PH1, 5, Sx::list(&[cond(51, &[Sx::atom(&PH2), Sx::int(3)])])),
-        spend(&a_id, &PH2, 3, Sx::list(&conds_of(ctx, ms))),
-    ]);
+    let parent = spend(&P1, &PH1, 5, Sx::list(&[cond(51, &[Sx::atom(&PH2), Sx::int(3)])]));
+    let child = spend(&a_id, &PH2, 3, Sx::list(&conds_of(ctx, ms)));
+    let out = if child_first { output(&[child, parent]) } else { output(&[parent, child]) };
     let relative_class = ms.iter().any(|i| matches!(ctx.letters[*i].0, 80 | 82 | 84 | 86 | 74 | 75));
     let real = real_parse(&out, RFlags::default(), BIG_COST);
     match (real.is_ok(), relative_class) {
@@ -348,7 +354,7 @@ fn run(rep: &Report) {
     let ctx = Ctx { letters, grid: grid() };
     let max = rep.tier.pick(3, 4);
     let ms = multisets(ctx.letters.len(), max);
-    rep.set_rule(&format!("every multiset of <= {max} conditions over 10 lock/birth kinds x 8 argument atoms (ff, '', 01, 02, 2^32-1, 2^32, 2^64-1, 2^64) on coin A, both visitors, x 576 chain states (height in {{0,1,2,3,2^32-2,2^32-1}} x timestamp in {{0,1,2,3,2^64-2,2^64-1}} x confirmed index in {{0,1,2,2^32-1}} x coin timestamp in {{0,1,2,2^64-1}}); plus every multiset of <= {} on an ephemeral coin; plus two independent coins A and C with one letter each (all 6400 ordered pairs) x A's full grid x 3 records for C. distinct = distinct multisets", max.min(2)));
+    rep.set_rule(&format!("every multiset of <= {max} conditions over 10 lock/birth kinds x 8 argument atoms (ff, '', 01, 02, 2^32-1, 2^32, 2^64-1, 2^64) on coin A, both visitors, x 576 chain states (height in {{0,1,2,3,2^32-2,2^32-1}} x timestamp in {{0,1,2,3,2^64-2,2^64-1}} x confirmed index in {{0,1,2,2^32-1}} x coin timestamp in {{0,1,2,2^64-1}}); plus every multiset of <= {} on an ephemeral coin (its spend listed after and before the creating spend); plus two independent coins A and C with one letter each (all 6400 ordered pairs) x A's full grid x 3 records for C. distinct = distinct multisets", max.min(2)));
     rep.assume("per-assertion semantics: after-kinds now >= bound, before-kinds now < bound, birth = equality, relative bound = min(confirmed + arg, type max); negative after / oversize before are tautologies, negative before / oversize after / negative or oversize birth can never hold");
     rep.assume("satisfiability of rejected bundles is decided exactly per dimension over the breakpoints of the piecewise-linear bounds");
     rep.extra("multisets", json!(ms.len()));
